@@ -9,7 +9,7 @@ from harness import sorted_common as sc
 from harness import sorted_monitors as sm
 
 PID = "C07"
-GEN_GROUPS = ["Sorted", "SortedZ", "Evse"]
+GEN_GROUPS = ["Sorted", "SortedZ", "Evse", "Battery"]
 TARGETS = ["coq/Props/C07.vo", "coq/Model/Sorted.vo"]
 CASES = {"quick": 320, "thorough": 6000}
 SIMS = {"quick": 24, "thorough": 400}
